@@ -261,6 +261,14 @@ def _compare(r, f_init, f_sync, cls, ei, es, mapping_missing):
         if {la, ra_} == {lb, rb}:
             r.violation(f_sync, es, "%s: operands swapped between construction (`%s`) and re-fit (`%s`)" % (cls.name, a, b))
             return
+        # same shape, same roles, but another measure of the point sets (e.g. centre vs centre_of_bounds, norm() vs an un-centred norm)
+        def _roles(e):
+            lv = leaves(e, None)
+            return ("self.target" in lv or any(x.startswith("self.target.") for x in lv), "self.source" in lv or any(x.startswith("self.source.") for x in lv))
+        if _roles(ei.left) == _roles(es.left) and _roles(ei.right) == _roles(es.right) and _roles(ei.left) != _roles(ei.right):
+            r.violation(f_sync, es, "%s: construction fits with `%s` but retargeting re-fits with `%s`: the two use different measures of the point sets, so set_target does not "
+                        "rebuild what the constructor builds" % (cls.name, a, b))
+            return
     raise AnalysisError("C08.R2: cannot relate construction fit `%s` and re-fit `%s` of %s" % (a[:80], b[:80], cls.name))
 
 
@@ -593,6 +601,8 @@ WITNESSES = [
             "t = self.target.points[self.trilist]", "t = self.target.points[self.trilist]\n    self.source.points[0] = t[0, 0]", rule="C08.R4", construct="PWA"),
     Witness("C08.W10", "menpo/transform/homogeneous/translation.py", "AlignmentTranslation._sync_state_from_target",
             "self.h_matrix[:-1, -1] = translation", "self.h_matrix[:-1, -1] += translation", rule="C08.R6", construct="AlignmentTranslation", note="seeded change C08-B"),
+    Witness("C08.W11", "menpo/transform/homogeneous/scale.py", "AlignmentUniformScale._sync_state_from_target", "new_scale = self.target.norm() / self.source.norm()",
+            "new_scale = np.linalg.norm(self.target.points) / np.linalg.norm(self.source.points)", rule="C08.R2", construct="AlignmentUniformScale", note="seeded change R2-C08-B"),
     Witness("C08.T1", "menpo/transform/homogeneous/rotation.py", "AlignmentRotation._sync_state_from_target",
             "optimal_rotation_matrix(self.source, self.target, allow_mirror=self.allow_mirror)", "optimal_rotation_matrix(self._source, self._target, allow_mirror=self.allow_mirror)", kind="T"),
 ]
